@@ -384,7 +384,7 @@ def load_module(path):
 
 
 LIBM = ('sqrt', 'exp', 'log', 'cos', 'sin', 'cosh', 'sinh', 'fabs', 'pow', 'floor', 'ceil', 'round', 'nearbyint',
-        'rint', 'tanh', 'atan', 'acos', 'asin', 'tan')
+        'rint', 'tanh', 'atan', 'acos', 'asin', 'tan', 'log1p', 'expm1')
 _ICMP = {'oeq': 'eq', 'une': 'ne', 'one': 'ne', 'olt': 'slt', 'ole': 'sle', 'ogt': 'sgt', 'oge': 'sge',
          'ult': 'slt', 'ugt': 'sgt', 'ule': 'sle', 'uge': 'sge', 'ueq': 'eq'}
 
@@ -658,16 +658,18 @@ class Machine:
             a, b = s.force(a), s.force(b)
         asym, bsym = isinstance(a, z3.ExprRef), isinstance(b, z3.ExprRef)
         if not asym and not bsym:
-            if op == 'fadd':
-                return a + b
-            if op == 'fsub':
-                return a - b
-            if op == 'fmul':
-                return a * b
-            if op == 'fdiv':
-                if b == 0:
-                    raise MemError('floating division by exact zero')
-                return a / b
+            # both operands are concrete doubles: do what the machine does (IEEE binary64, round-to-nearest-even).
+            # Only operations with a symbolic operand are interpreted over the exact reals.
+            fa, fb = float(a), float(b)
+            if op == 'fdiv' and fb == 0.0:
+                raise MemError('floating division by exact zero')
+            try:
+                r = {'fadd': fa + fb, 'fsub': fa - fb, 'fmul': fa * fb, 'fdiv': (fa / fb) if op == 'fdiv' else 0.0}[op]
+            except OverflowError:
+                raise MemError('floating overflow in concrete %s' % op)
+            if r != r or r in (float('inf'), float('-inf')):
+                raise MemError('non-finite result of concrete %s(%r, %r)' % (op, fa, fb))
+            return Fraction(r)
         if op == 'fmul':
             if not asym and a == 0:
                 return Fraction(0)
